@@ -82,7 +82,7 @@ def pooled_findings(repo):
         # keep the cache small
         olds = sorted((os.path.getmtime(os.path.join(cache_dir, x)), x)
                       for x in os.listdir(cache_dir))
-        for _, x in olds[:-40]:
+        for _, x in olds[:-800]:
             os.remove(os.path.join(cache_dir, x))
     except OSError:
         pass
